@@ -2,6 +2,7 @@
 //@ loops: xpoll.loops
 //@ enforce: xpoll_fd_reg_add
 //@ replace: find_fd
+//@ defs: -DXP_CAP_MAX=64
 //@ props: C04 C16 C08
 //@ expect: postcondition>=11 canary=5
 #include "_unit.h"
